@@ -338,6 +338,19 @@ def main():
     recs = explore(prop, cases, rundir, 'main', binary)
     notes.append(f'phase main run {time.time()-tphase:.1f}s')
     tphase = time.time()
+    # the extracted model + driver.ml against evaluation inside Coq, on a sample of the cases just run
+    try:
+        import selfcheck
+        n_sc, ok_sc, detail_sc = selfcheck.run_selfcheck(recs, rundir, os.path.join(COQ, 'theories'), os.path.join(BUILD, 'extract', 'driver'))
+    except Exception as e:                                    # noqa: BLE001 - any failure here is a broken obligation, not a crash
+        n_sc, ok_sc, detail_sc = 0, False, 'selfcheck crashed: ' + repr(e)[:300]
+    obligations += 1
+    if ok_sc:
+        discharged += 1
+    else:
+        broken.append(('driver-vs-coq', 'extraction+driver', detail_sc))
+    notes.append(f'driver vs Coq: {detail_sc} ({time.time()-tphase:.1f}s)')
+    tphase = time.time()
     ops = sorted(set(c.split('\t', 1)[0] for c in cases))
     obligations += len(ops)           # one correspondence obligation per operation in scope
     omode = prop.get('oracle', 'driver')
